@@ -196,7 +196,8 @@ def text_token(rng, pool):
         text = cc.passed_through(text).replace("<", "< ").replace("&", "& ").replace("[[", "[").replace("]]", "]")
     elem = rng.choice(["mtext", "mtext", "mtext", "mi", "mn", "mo", "ms"])
     tok = gen.N(elem, text=text)
-    if elem in ("mi", "mtext") and rng.random() < 0.12:
+    if elem in ("mi", "mtext") and rng.random() < 0.12 and not any(c in text for c in "<>&"):
+        # (a unit name is spoken with a plural 's' glued on: a text that ends in '<' would make something tag-shaped out of the author's own characters)
         # marked as a unit the two documented ways (the unit rules speak known units by table and anything else by its text)
         if rng.random() < 0.5:
             tok.attrs["intent"] = ":unit"
